@@ -151,7 +151,7 @@ TRename == Step_(/\ Ev.op = "rename"
 TImage == Step_(/\ Ev.op = "image"
                 /\ ImageOK(Ev.cuts, Ev.res)
                 /\ UNCHANGED <<tab, g, pend, rep>>)
-(* TODO-KNOWN-FINDING (C24-F1, C24-F2): an image the real NewFreezer refused to open is accepted as    *)
+(* KNOWN-FINDING (tolerated only through ctx.known_finding in the check) (C24-F1, C24-F2): an image the real NewFreezer refused to open is accepted as    *)
 (* pending iff the specification computes a failure of exactly one of the two known kinds for it      *)
 KnownFailure(o) == FailedOf(o.tabs) /\ (KnownF3(o.tabs) \/ KnownF1(o.tabs) \/ KnownF2(o.tabs))
 WhichKnown(o) == IF KnownF3(o.tabs) THEN "C24-F3" ELSE IF KnownF1(o.tabs) THEN "C24-F1" ELSE "C24-F2"
